@@ -95,6 +95,8 @@ def relativise(c, conc, dt, path):
             return c
         if path == 'wire':
             return big_abs(conc, 1, 'gint') if isinstance(conc, int) else c
+        if isinstance(conc, int) and abs(conc) > 2 ** 53 and float(conc) != conc:
+            return c          # not a double: the conversion to float is not decided by the model (case skipped as ungrounded)
         if isinstance(conc, int) or (isinstance(conc, float) and math.isfinite(conc)):
             return big_abs(conc, SCALES[dt['sid']], 'bgnum') or c
         return c
@@ -543,8 +545,9 @@ def alpha(res, dt, ac, conc, pa=None, pconc=None):
             sc = Fraction(SCALES[dt['sid']])
             if isinstance(conc, bool) or not isinstance(conc, (int, float)) or (isinstance(conc, float) and not math.isfinite(conc)):
                 return ALTERED
-            idx = lambda x: Fraction(x) / sc if isinstance(x, float) else Fraction(x)    # noqa
-            if idx(res) != idx(conc):
+            res_idx = Fraction(res) if isinstance(res, int) else Fraction(res) / sc          # an int result is the exported index
+            conc_idx = Fraction(conc) if ac is not None and ac.get('j') == 'gint' else Fraction(conc) / sc   # a gint candidate is a wire index
+            if res_idx != conc_idx:
                 return ALTERED
         return a
     if isinstance(res, int):
